@@ -3,6 +3,7 @@ package scen
 import (
 	"encoding/hex"
 	"fmt"
+	"os"
 	"reflect"
 	"sort"
 	"strings"
@@ -110,7 +111,11 @@ var (
 
 func Spec() *spec.Spec {
 	specOnce.Do(func() {
-		s, err := spec.Load("/verif/spec/layouts.spec")
+		root := os.Getenv("VERIF_ROOT")
+		if root == "" {
+			root = "/verif"
+		}
+		s, err := spec.Load(root + "/spec/layouts.spec")
 		if err != nil {
 			panic("HARNESS: cannot load layouts.spec: " + err.Error())
 		}
